@@ -3,7 +3,7 @@ from __future__ import annotations
 
 import z3
 
-from .. import common, relmodel, templates
+from .. import common, relmodel, sqlmodel, sqlprogs, templates
 from ..driver import HOLDS, INCONCLUSIVE, UNDECIDED, VIOLATION
 from ..prog import (Env, IllFormed, IllTyped, add_abstract_leaf, build, cols_of, fmt, from_jsonable, ops_of, pyeval, sem_seq, sem_tree,
                     to_jsonable)
@@ -149,6 +149,18 @@ def shapes(tier, seed):
                     add(eng, node3, p3, labs + labs2)
             except IllTyped:
                 pass
+    # the compiled SQL's row count against the static bounds (leaf bounds fixed to the truthful 0..unbounded: the subject here is
+    # the statement the engine emits, e.g. LIMIT/OFFSET boundary cases)
+    seen = set()
+    for sh in list(out):
+        if sh.get("eng") == "sq" and not sh.get("processor") and repr(sh["prog"]) not in seen and "'W'" not in repr(sh["prog"]):
+            seen.add(repr(sh["prog"]))
+            s2 = dict(sh)
+            s2["sqlcount"] = True
+            # LIMIT/OFFSET are case-split by the SQL model: slice bounds range over 0..n+1 here
+            s2["params"] = {k: ([0, sh["n"] + 1] if k.lstrip("$t")[:1] in ("s", "e") else v) for k, v in sh["params"].items()}
+            s2["labels"] = list(sh["labels"]) + ["sqlcount"]
+            out.append(s2)
     return out
 
 
@@ -207,6 +219,9 @@ def run_shape(shape, tier):
             cols = LEAVES[name]
             tab = common.sym_table(ctx, name, cols, n, ordered=True)
             cnt = tab.count()
+            if shape.get("sqlcount"):
+                add_abstract_leaf(env, name, cols, eng, tab, min_rows=0, max_rows=None)
+                continue
             if has_join:
                 lo = ctx.int(f"{name}.lo", 0, n)
                 hi = ctx.int(f"{name}.hi", 0, n + 1)
@@ -239,6 +254,21 @@ def run_shape(shape, tier):
             obs.append(("is_join_identity => one row, no columns", z3.And(cnt == 1, z3.BoolVal(not ref.cols)), {}))
         if rel.is_trivial:
             obs.append(("is_trivial => identity or empty", z3.Or(cnt == 0, z3.And(cnt == 1, z3.BoolVal(not ref.cols))), {}))
+        if eng == "sq" and shape.get("sqlcount"):
+            # the other half of "executed": the SELECT the real engine compiles, evaluated by the SQL model over the same tables
+            try:
+                ex = env.engines["sq"].to_executable(rel)
+                sqlt = sqlprogs.strip_ignored(sqlmodel.select(ex, {k: relmodel.unordered(v) for k, v in env.tables.items()}))
+            except (sqlmodel.OutsideModel, sqlmodel.SqlInvalid):
+                sqlt = None
+            except Exception:  # noqa: BLE001 - compile failures are C08's subject
+                sqlt = None
+            if sqlt is not None:
+                scnt = sqlt.count()
+                obs.append(("min_rows <= rows returned by the compiled SQL", zint(lo) <= scnt, {"min_rows": str(lo), "sql": str(ex)[:160]}))
+                if hi is not None:
+                    obs.append(("rows returned by the compiled SQL <= max_rows", scnt <= zint(hi), {"max_rows": str(hi), "sql": str(ex)[:160]}))
+                obs.append(("SQL result columns", set(sqlt.cols) == {t.qualified_name for t in rel.columns}, {"sql columns": sorted(sqlt.cols)}))
         if ("chain" in ops_of(prog) or has_join) and any(u in SPECIAL for u in used):
             try:
                 got = sem_tree(rel, env)
@@ -259,6 +289,8 @@ def run_shape(shape, tier):
         bind = templates.bind_concrete(shape["params"], m)
         rows = {name: common.rows_from_model(m, name, LEAVES[name], n) for name in used if name in LEAVES}
         decl = {name: (m.get(f"{name}.lo", 0), None if m.get(f"{name}.unbounded") else m.get(f"{name}.hi", 0)) for name in rows}
+        if shape.get("sqlcount"):
+            decl = {name: (0, None) for name in rows}
         fails, symptom, detail = concrete_check(prog, eng, rows, decl, bind)
         if not fails:
             out["status"] = "harness-error"
@@ -318,6 +350,18 @@ def concrete_check(prog, eng, rows, decl, bind):
         return True, "is_join_identity-wrong", {"count": cnt}
     if rel.is_trivial and not (cnt == 0 or (cnt == 1 and not rel.columns)):
         return True, "is_trivial-wrong", {"count": cnt}
+    if eng == "sq":
+        try:
+            ex = env.engines["sq"].to_executable(rel)
+            srows = sqlmodel.run_sqlite(ex, env.metadata, {k: v for k, v in leafrows.items() if k in LEAVES and env.metadata is not None
+                                                            and k in env.metadata.tables})
+        except Exception:  # noqa: BLE001 - compile / database failures are C08's subject
+            srows = None
+        if srows is not None:
+            if rel.min_rows > len(srows):
+                return True, "min_rows>sql-count", {"min_rows": rel.min_rows, "sql rows": len(srows), "sql": str(ex)[:160]}
+            if rel.max_rows is not None and rel.max_rows < len(srows):
+                return True, "max_rows<sql-count", {"max_rows": rel.max_rows, "sql rows": len(srows), "sql": str(ex)[:160]}
     from ..prog import pytree
     if not any(u in SPECIAL for u in used):
         return False, "", None
